@@ -313,6 +313,8 @@ where
 
     // Start the prepared transmission and wait for its completion interrupt
     async fn tx_until_done(&mut self) -> Result<(), RadioError> {
+        // a flag latched by an earlier, abandoned operation must not read as this one's result
+        self.radio_kind.clear_irq_status().await?;
         self.radio_kind.do_tx().await?;
         loop {
             self.wait_for_irq().await?;
@@ -364,7 +366,12 @@ where
     /// Call [`LoRa::complete_rx`] to wait and handle result.
     pub async fn start_rx(&mut self) -> Result<(), RadioError> {
         if let RadioMode::Receive(listen_mode) = self.radio_mode {
-            match self.radio_kind.do_rx(listen_mode).await {
+            // a flag latched by an earlier, abandoned operation must not read as this one's result
+            let started = match self.radio_kind.clear_irq_status().await {
+                Ok(()) => self.radio_kind.do_rx(listen_mode).await,
+                Err(err) => Err(err),
+            };
+            match started {
                 Ok(()) => Ok(()),
                 Err(err) => self.fail_to_standby(err).await,
             }
@@ -508,6 +515,7 @@ where
 
     // Start the prepared CAD and wait for its completion interrupt
     async fn cad_until_done(&mut self, mdltn_params: &ModulationParams) -> Result<bool, RadioError> {
+        self.radio_kind.clear_irq_status().await?;
         self.radio_kind.do_cad(mdltn_params).await?;
         let mut cad_activity_detected = false;
         loop {
